@@ -42,65 +42,8 @@ theorem wire_some_mem_gen (k : Core) (n x i : Nat) (p : Nat × Nat)
     p ∈ (wire k n x (some i)).frm ↔
       p ∈ k.frm ∨ p = (x, i) ∨ p = (n, x) ∨ (∃ j, (x, j) ∈ k.ints ∧ p = (j, i)) ∨
       (∃ j, (n, j) ∈ k.ints ∧ j ≠ i ∧ p = (j, x)) ∨
-      (∃ fin, (n, fin) ∈ k.frm ∧ fin ≠ x ∧ p = (i, fin)) := by
-  simp only [wire]
-  rw [mem_foldl_from (fun fin => x != fin) (fun _ => i) (fun fin => fin)]
-  have hints : ∀ (K : Core), (List.foldl (fun k j => k.from j i) K (intsOf K.ints x)).ints = K.ints :=
-    fun K => (foldl_from_frame' (fun j => j) (fun _ => i) _ K).2.2.2
-  have hF : ∀ q, q ∈ (List.foldl (fun k j => if (some j != some i) = true then k.from j x else k)
-      (List.foldl (fun k j => k.from j i) ((k.from x i).from n x) (intsOf ((k.from x i).from n x).ints x))
-      (intsOf (List.foldl (fun k j => k.from j i) ((k.from x i).from n x)
-        (intsOf ((k.from x i).from n x).ints x)).ints n)).frm ↔
-      q ∈ k.frm ∨ q = (x, i) ∨ q = (n, x) ∨ (∃ j, (x, j) ∈ k.ints ∧ q = (j, i)) ∨
-      (∃ j, (n, j) ∈ k.ints ∧ j ≠ i ∧ q = (j, x)) := by
-    intro q
-    rw [mem_foldl_from (fun j => some j != some i) (fun j => j) (fun _ => x), hints,
-      mem_foldl_from' (fun j => j) (fun _ => i)]
-    simp only [Core.from, List.mem_cons, mem_intsOf]
-    constructor
-    · rintro (((h | h | h) | ⟨j, hj, h⟩) | ⟨j, hj, hji, h⟩)
-      · exact Or.inr (Or.inr (Or.inl h))
-      · exact Or.inr (Or.inl h)
-      · exact Or.inl h
-      · exact Or.inr (Or.inr (Or.inr (Or.inl ⟨j, hj, h⟩)))
-      · exact Or.inr (Or.inr (Or.inr (Or.inr ⟨j, hj, by simpa using hji, h⟩)))
-    · rintro (h | h | h | ⟨j, hj, h⟩ | ⟨j, hj, hji, h⟩)
-      · exact Or.inl (Or.inl (Or.inr (Or.inr h)))
-      · exact Or.inl (Or.inl (Or.inr (Or.inl h)))
-      · exact Or.inl (Or.inl (Or.inl h))
-      · exact Or.inl (Or.inr ⟨j, hj, h⟩)
-      · exact Or.inr ⟨j, hj, by simpa using hji, h⟩
-  rw [hF]
-  constructor
-  · rintro (h | ⟨fin, hfin, hne, h⟩)
-    · rcases h with h | h | h | h | h
-      · exact Or.inl h
-      · exact Or.inr (Or.inl h)
-      · exact Or.inr (Or.inr (Or.inl h))
-      · exact Or.inr (Or.inr (Or.inr (Or.inl h)))
-      · exact Or.inr (Or.inr (Or.inr (Or.inr (Or.inl h))))
-    · rw [List.mem_eraseDups, mem_objectsOf, hF] at hfin
-      have hne' : fin ≠ x := by
-        intro h'; subst h'; simp at hne
-      rcases hfin with h' | h' | h' | ⟨j, hj, h'⟩ | ⟨j, hj, _, h'⟩
-      · exact Or.inr (Or.inr (Or.inr (Or.inr (Or.inr ⟨fin, h', hne', h⟩))))
-      · exact absurd (Prod.mk.inj h').1 hnx
-      · exact absurd (Prod.mk.inj h').2 hne'
-      · have := (Prod.mk.inj h').1
-        subst this
-        exact absurd hj hxn
-      · have := (Prod.mk.inj h').1
-        subst this
-        exact absurd hj hnn
-  · rintro (h | h | h | h | h | ⟨fin, hfin, hne, h⟩)
-    · exact Or.inl (Or.inl h)
-    · exact Or.inl (Or.inr (Or.inl h))
-    · exact Or.inl (Or.inr (Or.inr (Or.inl h)))
-    · exact Or.inl (Or.inr (Or.inr (Or.inr (Or.inl h))))
-    · exact Or.inl (Or.inr (Or.inr (Or.inr (Or.inr h))))
-    · refine Or.inr ⟨fin, ?_, by simpa using fun h' => hne h'.symm, h⟩
-      rw [List.mem_eraseDups, mem_objectsOf, hF]
-      exact Or.inl hfin
+      (∃ fin, (n, fin) ∈ k.frm ∧ p = (i, fin)) :=
+  wire_some_mem_all k n x i p hnx hnn hxn
 
 /-! ## one argument more: the spine description -/
 
@@ -551,11 +494,11 @@ theorem gInv_step_fun {n : Nat} {k0 k : Core} {l : List TExpr} {st : HoArgs} (hc
         exact List.mem_append_right _ ((mem_spineInts n st.rs (n, i)).2 (Or.inl ⟨a, ha, hl, rfl⟩))
       · have := (inv.lam_rng a ha i hl).2.1
         omega
-  have hC : ∀ p : Nat × Nat, (∃ fin, (n, fin) ∈ K'.frm ∧ fin ≠ r.node ∧ p = (st.next + 1, fin)) ↔
+  have hC : ∀ p : Nat × Nat, (∃ fin, (n, fin) ∈ K'.frm ∧ p = (st.next + 1, fin)) ↔
       (∃ a ∈ st.rs, p = (st.next + 1, a.1.node)) := by
     intro p
     constructor
-    · rintro ⟨fin, hfin, _, h⟩
+    · rintro ⟨fin, hfin, h⟩
       rw [hKf, inv.frm_iff] at hfin
       rcases hfin with (hfin | hfin) | hfin
       · exact absurd rfl (hctx.frm _ hfin).2
@@ -581,11 +524,9 @@ theorem gInv_step_fun {n : Nat} {k0 k : Core} {l : List TExpr} {st : HoArgs} (hc
         have : st.next ≤ n := this
         omega
     · rintro ⟨a, ha, h⟩
-      refine ⟨a.1.node, ?_, ?_, h⟩
-      · rw [hKf, inv.frm_iff]
-        exact Or.inl (Or.inr (Or.inr (Or.inl (Or.inl ⟨_, (mem_argInfos _ _).2 ⟨a, ha, rfl⟩, rfl⟩))))
-      · have := (inv.node_lt a ha).1
-        omega
+      refine ⟨a.1.node, ?_, h⟩
+      rw [hKf, inv.frm_iff]
+      exact Or.inl (Or.inr (Or.inr (Or.inl (Or.inl ⟨_, (mem_argInfos _ _).2 ⟨a, ha, rfl⟩, rfl⟩))))
   have hrnode : r.node < r.next ∧ r.node ≠ n := by rw [hx]; exact ⟨by omega, by omega⟩
   refine ⟨by rw [w1]; exact post.next_eq, by rw [w2]; exact post.src_eq,
     by rw [w3, post.shared_eq, K1h]; exact inv.shared_eq, ?_, ?_, by show k0.nextB ≤ r.next; omega, ?_, ?_, ?_, ?_, ?_,
